@@ -177,7 +177,10 @@ class Driver:
 
         x = optyx.Variable("x", lb=0.0, ub=INIT["xub"])
         y = optyx.Variable("y", lb=INIT["ylb"], ub=4.0)
-        objs, cons = formulas(x, y)
+        objs0, cons = formulas(x, y)
+        # the user keeps the expression object: minimize(f) ... maximize(f) re-install the SAME object
+        shared = {}
+        objs = {k: (lambda k=k: shared.setdefault(k, objs0[k]())) for k in objs0}
         P = optyx.Problem()
         m = dict(INIT)
         tags = {"_variables": None, "_solver_cache": None, "hess": None, "_lp_cache": None, "_is_linear_cache": None}
